@@ -249,6 +249,10 @@ def run_case(ctx, case):
                 o["want_join"] = ctx.rng.choice(L.JOIN_SHAPES)      # make sure every pair sees key joins
             elif b == 2 and dv >= 3 and cv >= 4:
                 o["history"] = "remove_last"     # dataset removed before saving, still reachable through a key join
+            elif b == 4:
+                o["special"] = "parsed_same_label"
+            elif b == 5 and dv >= 4:
+                o["special"] = "element_bound"
             elif b == 3:
                 hist = ctx.rng.choice(SAFE_HISTORIES)
                 o.update(H.HISTORY_OPTS[hist])
